@@ -30,13 +30,13 @@ Init == /\ m \in AllMacros /\ form \in Forms(m) /\ tc \in BOOLEAN
         /\ (IsHist(m) /\ UsesOpts(form) /\ optsvia = "opts!" /\ buckets = <<>> => const = {})
         /\ (HasBuckets(form) => buckets # <<>>)
         /\ target \in {"default", "custom", "custom_prefixed"}
-        /\ taken \in BOOLEAN
+        /\ taken \in {"no", "same", "otherkind"}      \* the name is fresh / taken by an equal metric / taken by a metric of another kind
 Spec == Init /\ [][UNCHANGED vars]_vars
 
 \* the explicit twin: constructor + arguments
 Twin == [ctor |-> m, const |-> const, labels |-> labels, buckets |-> buckets]     \* name and help are supplied by the harness (unique per case)
 \* a fresh name is admitted; a name whose descriptor is already registered in the target registry is refused
-Outcome == IF taken THEN "AlreadyReg" ELSE "Ok"
+Outcome == IF taken # "no" THEN "AlreadyReg" ELSE "Ok"      \* descriptor identity carries no kind: another kind under the same identity is refused too
 SetToSeq(S) == CHOOSE s \in [1..Cardinality(S) -> S] : \A i, j \in 1..Cardinality(S) : i # j => s[i] # s[j]
 Emit == PrintT(<<"CASE", ToJson([m |-> m, form |-> form, tc |-> tc, optsvia |-> optsvia, const |-> SetToSeq(const), labels |-> labels, buckets |-> buckets,
                                   target |-> target, taken |-> taken, outcome |-> Outcome])>>)
